@@ -195,6 +195,52 @@ def canon(node):
     return "?" + repr(node)
 
 
+def trailing_comma_after_star(src):
+    """True if a parameter or argument list has a trailing comma after a * or ** item:
+    the 3.4 grammar (typedargslist, varargslist, arglist) does not allow it, 3.6 does."""
+    import io
+    import tokenize
+    stack = []
+    prev = None
+    try:
+        for tok in tokenize.generate_tokens(io.StringIO(src).readline):
+            tt, ts = tok[0], tok[1]
+            if tt in (tokenize.NL, tokenize.NEWLINE, tokenize.COMMENT, tokenize.INDENT, tokenize.DEDENT, tokenize.ENDMARKER):
+                continue
+            if tt == tokenize.NAME and ts == "lambda":
+                stack.append({"kind": "lambda", "star": False, "start": True})
+                prev = ts
+                continue
+            if tt == tokenize.OP and ts in "([{":
+                if stack:
+                    stack[-1]["start"] = False
+                stack.append({"kind": ts, "star": False, "start": True})
+                prev = ts
+                continue
+            if tt == tokenize.OP and ts in ")]}":
+                if stack and stack[-1]["kind"] in "([{":
+                    ctx = stack.pop()
+                    if ctx["kind"] == "(" and ctx["star"] and prev == ",":
+                        return True
+                prev = ts
+                continue
+            if tt == tokenize.OP and ts == ":" and stack and stack[-1]["kind"] == "lambda":
+                ctx = stack.pop()
+                if ctx["star"] and prev == ",":
+                    return True
+                prev = ts
+                continue
+            if stack:
+                ctx = stack[-1]
+                if tt == tokenize.OP and ts in ("*", "**") and ctx["start"]:
+                    ctx["star"] = True
+                ctx["start"] = tt == tokenize.OP and ts == ","
+            prev = ts
+    except (tokenize.TokenError, IndentationError, SyntaxError):
+        return False
+    return False
+
+
 def do_ast(req):
     mode = req.get("mode", "exec")
     try:
@@ -203,6 +249,8 @@ def do_ast(req):
         return {"ok": False, "exc": type(e).__name__, "msg": str(e.msg)}
     except (ValueError, OverflowError, RecursionError, MemoryError) as e:
         return {"ok": False, "exc": type(e).__name__, "msg": ""}
+    if trailing_comma_after_star(req["src"]):
+        return {"ok": True, "tree": None, "fenced": "fenced: trailing comma after * or ** (3.6 grammar)"}
     try:
         return {"ok": True, "tree": canon(tree)}
     except ValueError as e:
